@@ -626,6 +626,22 @@ class Exec:
                         continue
                     out.items.append(v)
             return out
+        if len(e.generators) == 2 and not any(g.ifs or g.is_async for g in e.generators) and not isinstance(elt, tuple):
+            # [f(a, b) for a in A for b in B] with B enumerated and independent of a: the comprehension over itertools.product(A, B)
+            g0, g1 = e.generators
+            outer_names = {n.id for n in ast.walk(g0.target) if isinstance(n, ast.Name)}
+            if not any(isinstance(n, ast.Name) and n.id in outer_names for n in ast.walk(g1.iter)):
+                inner = self.ev(g1.iter, env)
+                if self.iterate(inner) is not None:
+                    env3 = dict(env)
+                    env3['__product__'] = T('call', ('itertools.product', (seq, inner), ()))
+                    g = ast.comprehension(target=ast.Tuple(elts=[g0.target, g1.target], ctx=ast.Store()),
+                                          iter=ast.Name(id='__product__', ctx=ast.Load()), ifs=[], is_async=0)
+                    e2 = type(e)(elt=e.elt, generators=[g]) if not isinstance(e, ast.DictComp) else None
+                    if e2 is not None:
+                        ast.copy_location(e2, e)
+                        ast.fix_missing_locations(e2)
+                        return self._comp(e2, env3, elt, kind)
         if len(e.generators) != 1:
             return T('comp', (ast.unparse(e),))
         env2 = dict(env)
@@ -735,8 +751,14 @@ class Exec:
                     args.extend(inner)
                     continue
             args.append(v)
-        kwargs = tuple((k.arg, self.ev(k.value, env)) for k in e.keywords)
-        return self.call(fname, fval, recv, tuple(args), kwargs, e, env)
+        kwargs = []
+        for k in e.keywords:
+            v = self.ev(k.value, env)
+            if k.arg is None and isinstance(v, SList) and v.kind == 'dict' and not v.opaque_tail and all(isinstance(kk, str) for kk, _ in v.items):
+                kwargs.extend((kk, vv) for kk, vv in v.items)        # f(**{'name': value}) is f(name=value)
+            else:
+                kwargs.append((k.arg, v))
+        return self.call(fname, fval, recv, tuple(args), tuple(kwargs), e, env)
 
     def callee(self, f, env):
         """-> (printable name, callee value, receiver value or None)"""
@@ -1558,6 +1580,17 @@ class Exec:
         raise Continue()
 
     def s_With(self, st, env):
+        fi = env.get('__fi__')
+        if len(st.items) == 1 and isinstance(st.items[0].context_expr, ast.Call) and st.items[0].optional_vars is None and \
+                isinstance(fi, FuncInfo) and fi.module.dotted(st.items[0].context_expr.func) == 'contextlib.suppress':
+            # `with contextlib.suppress(E1, E2): body` is `try: body  except (E1, E2): pass`
+            c = st.items[0].context_expr
+            h = ast.ExceptHandler(type=ast.Tuple(elts=list(c.args), ctx=ast.Load()), name=None, body=[ast.Pass()])
+            t = ast.Try(body=st.body, handlers=[h], orelse=[], finalbody=[])
+            ast.copy_location(t, st)
+            ast.copy_location(h, st)
+            ast.fix_missing_locations(t)
+            return self.s_Try(t, env)
         for item in st.items:
             v = self.ev(item.context_expr, env)
             if item.optional_vars is not None:
@@ -1628,6 +1661,10 @@ def simplify(t):
         if isinstance(a, SList) and not a.opaque_tail:
             return len(a.items)
         return t
+    if t.op == 'bin' and t.args[0] == '*' and (t.args[2] is not True and t.args[2] == 1 and type(t.args[2]) is int):
+        return t.args[1]            # x * 1 has the value of x
+    if t.op == 'bin' and t.args[0] == '*' and (type(t.args[1]) is int and t.args[1] == 1):
+        return t.args[2]
     if t.op == 'not' and isinstance(t.args[0], T) and t.args[0].op == 'not':
         return t.args[0].args[0]
     if t.op == 'not' and isinstance(t.args[0], T) and t.args[0].op == 'cmp':
@@ -1851,6 +1888,11 @@ class Engine:
                 for k, v in env.items():
                     if k not in e:
                         e[k] = v() if callable(v) else v
+            for k, orig in (getattr(fn, 'bound', None) or {}).items():
+                # the function a decorator left in place of the decorated one: its free variable is the original function
+                if k not in e:
+                    e[k] = T('func', (orig.name, _Closure(orig.node, {'__fi__': orig, **{k2: T('func', (o2.name, _Closure(o2.node, {'__fi__': o2})))
+                                                                                       for k2, o2 in (getattr(orig, 'bound', None) or {}).items()}})))
             try:
                 try:
                     ex.block(node.body, e)
